@@ -93,11 +93,11 @@ mutual
     | ks, [e], sw, i, done, done', st => by
       simpa only [compileCases] using compile_st_indep env env' e done done' false false false false st
     | ks, e :: e' :: es, sw, i, done, done', st => by
-      have h1 := compile_st_indep env env' e done done' (!env.dry)
-        (!env.dry && decide ((ks.headD []).card > 1)) (!env'.dry)
-        (!env'.dry && decide ((ks.headD []).card > 1)) st
+      have h1 := compile_st_indep env env' e done done' true
+        (decide ((ks.headD []).card > 1)) true
+        (decide ((ks.headD []).card > 1)) st
       have h2 := compileCases_st_indep env env' ks.tail (e' :: es) sw (i + 1) done done'
-        (compile env e done (!env.dry) (!env.dry && decide ((ks.headD []).card > 1)) st).st
+        (compile env e done true (decide ((ks.headD []).card > 1)) st).st
       simp only [compileCases]; rw [h2, h1]
 end
 
@@ -266,12 +266,12 @@ mutual
       split <;> omega
     | ks, e :: e' :: es, sw, i, done, st => by
       intro l
-      have h1 := compile_labels env e done (!env.dry) (!env.dry && decide ((ks.headD []).card > 1)) st l
-      have hm1 := compile_mono env e done (!env.dry) (!env.dry && decide ((ks.headD []).card > 1)) st
+      have h1 := compile_labels env e done true (decide ((ks.headD []).card > 1)) st l
+      have hm1 := compile_mono env e done true (decide ((ks.headD []).card > 1)) st
       have h2 := compileCases_labels env ks.tail (e' :: es) sw (i + 1) done
-        (compile env e done (!env.dry) (!env.dry && decide ((ks.headD []).card > 1)) st).st l
+        (compile env e done true (decide ((ks.headD []).card > 1)) st).st l
       have hm2 := compileCases_mono env ks.tail (e' :: es) sw (i + 1) done
-        (compile env e done (!env.dry) (!env.dry && decide ((ks.headD []).card > 1)) st).st
+        (compile env e done true (decide ((ks.headD []).card > 1)) st).st
       simp only [compileCases, labCnt_append, labCnt_cons', labCnt_nil, labCnt_ite]
       split <;> omega
 end
